@@ -307,6 +307,24 @@ func c09Run(inI interface{}, env *Env) *Failure {
 			}
 		}
 	}
+	// a copy holds a complete value of its source: whatever was stored under copy<N> must be
+	// one of the complete values ever written to (or initially in) some shared file
+	complete := map[string]bool{}
+	for _, f := range in.Initial {
+		complete["init:"+f] = true
+	}
+	for _, ws := range writes {
+		for _, w := range ws {
+			complete[w.op.Val] = true
+		}
+	}
+	for _, p := range sortedNamesS(final) {
+		if strings.HasPrefix(p, "copy") && strings.HasPrefix(final[p], "F:") {
+			if v := strings.TrimPrefix(final[p], "F:"); !complete[v] {
+				return failf("C09/torn-copy", "final", "%q (made by Copy) holds %q, which is not a complete value ever written to any source file", p, v)
+			}
+		}
+	}
 	// (c) concurrent creations leave one node: the walk found unique names everywhere (checked by WalkFS)
 	return nil
 }
